@@ -120,7 +120,10 @@ def gen_sequential(tier, rng):
             steps, nxt, alive = [], 1, []
             for _ in range(rng.randint(8, 40)):
                 r = rng.random()
-                if r < 0.35 and nxt <= 38:
+                if r < 0.06 and nxt <= 38:
+                    steps.append({"act": "CreateBad", "x": nxt})     # conversion of the sound data fails
+                    nxt += 1
+                elif r < 0.35 and nxt <= 38:
                     steps.append({"act": "Create", "x": nxt})
                     alive.append(nxt)
                     nxt += 1
